@@ -174,7 +174,7 @@ func TestC09_CrashPoints(t *testing.T) {
 				if c == "" {
 					c = fmt.Sprintf("cmd%d", i)
 				}
-				if r := runWtf(base, dir, []string{"save", "--", c, d}); !strings.Contains(r.Stdout, "saved successfully") {
+				if r := runWtf(base, dir, []string{"save", "--", c, d}); !saidSaved(r.Stdout, "save") {
 					t.Fatalf("harness: unfaulted save failed: %s %s", r.Stdout, r.Stderr)
 				}
 				oldCmds = append(oldCmds, c)
@@ -235,7 +235,7 @@ func TestC09_CrashPoints(t *testing.T) {
 		// traced, unfaulted run: the syscall list and the new content
 		refH := copyHomeRaw(dir, base)
 		names, create, r0 := traceOp(refH, dir, args)
-		if target == "notebook" && !strings.Contains(r0.Stdout, okLine) {
+		if target == "notebook" && !saidSaved(r0.Stdout, okLine) {
 			t.Fatalf("harness: traced op failed: %s %s", r0.Stdout, clip(r0.Stderr))
 		}
 		if len(names) == 0 {
@@ -291,7 +291,7 @@ func TestC09_CrashPoints(t *testing.T) {
 						o.st = "new"
 					case bytes.Equal(got, oldNB):
 						o.st = "old"
-						if strings.Contains(r.Stdout, okLine) {
+						if saidSaved(r.Stdout, okLine) {
 							o.msg = "success was reported although the notebook still holds the previous content"
 						}
 					default:
@@ -316,7 +316,7 @@ func TestC09_CrashPoints(t *testing.T) {
 						if o.st == "new" {
 							want2 = followOnNew
 						}
-						if !strings.Contains(r2.Stdout, "Command saved successfully!") {
+						if !saidSaved(r2.Stdout, "save") {
 							o.msg = "an ordinary save after the event failed: " + clip(r2.Stdout)
 						} else if !bytes.Equal(got2, want2) {
 							o.msg = fmt.Sprintf("an ordinary save after the event left %d bytes, expected the %d bytes the same save produces from the %s state", len(got2), len(want2), o.st)
